@@ -577,6 +577,14 @@ pub fn inject_one(rng: &mut Rng, base: &TsDoc, which: usize) -> Option<Fault> {
                     locations: all_locs.iter().map(|l| nm(l)).collect(),
                 }));
             }
+            // bystanders: directives that are not recursive themselves but use the same types as the cycle (before or
+            // after the recursive ones, wherever the shuffle puts them)
+            let cyc_types: Vec<String> = doc.defs.iter().filter_map(|d| match d { TsDef::Type(t) if t.name.s.starts_with("Cyc") && matches!(t.kind, TKind::Input | TKind::Enum | TKind::Scalar) => Some(t.name.s.clone()), _ => None }).collect();
+            for b in 0..rng.below(3) {
+                if let Some(t) = rng.pick_opt(&cyc_types) {
+                    doc.defs.push(TsDef::Directive(DirectiveDef { desc: None, p: P::none(), name: nm(&format!("bystander{b}")), args: vec![InputValueDef { desc: None, name: nm("y"), ty: Ty::named(t), default: None, dirs: vec![] }], repeatable: false, repeatable_p: P::none(), locations: vec![nm("FIELD_DEFINITION")] }));
+                }
+            }
             rng.shuffle(&mut doc.defs);
             let mut hs = hops.clone();
             hs.sort();
